@@ -77,6 +77,14 @@ def _symex_job(args):
                                 prev = len(mid)
                         if mids:
                             o['smt2_mid'] = mids
+                plan = getattr(ob, 'replay_plan', None)
+                if plan and ob.kind != 'cover':
+                    names = []
+                    for k_, (path_, term_) in enumerate(plan):
+                        c_ = z3.Const('rp!%d' % k_, term_.sort())
+                        s.add(c_ == term_)
+                        names.append(path_)
+                    o['replay_paths'] = names
                 o['smt2'] = s.to_smt2()
                 o['status'] = None
             out['obligations'].append(o)
@@ -85,7 +93,7 @@ def _symex_job(args):
                     'assumptions': sorted(res.assumptions), 'dropped': res.dropped, 'symex_s': round(res.symex_s, 3),
                     'prune_checks': res.solver_checks, 'outcomes': res.outcomes,
                     'arith': unit.arith, 'props': unit.props, 'contract_file': os.path.relpath(unit.path, VERIF),
-                    'bounded': unit.opts.get('bounded')})
+                    'bounded': unit.opts.get('bounded'), 'unit_line': unit.node.lineno, 'unit_key': unit.key})
     except EngineError as e:
         out['error'] = 'EngineError: %s' % e
         out['trace'] = traceback.format_exc()
@@ -118,7 +126,7 @@ def _static_hash():
     import ast
     import hashlib
     h = hashlib.sha256()
-    for root in (os.path.join(VERIF, 'pyvc'), os.path.join(VERIF, 'contracts'), os.path.join(VERIF, 'specs')):
+    for root in (os.path.join(VERIF, 'pyvc'), os.path.join(VERIF, 'contracts'), os.path.join(VERIF, 'specs'), os.path.join(VERIF, 'nreplay')):
         for fn in sorted(os.listdir(root)):
             if fn.endswith('.py'):
                 h.update(fn.encode())
